@@ -19,17 +19,25 @@ from . import c09_eval as E
 from . import c09_gen as G
 
 MANIFEST = {
-    "text": "Coq theorems about an executable model of stix2.equivalence.pattern: the comparators are lawful total "
-            "preorders (so the reported relation is an equivalence), every rewrite of the normaliser preserves the "
-            "meaning of comparison expressions for EVERY interpretation of the atoms and refines observation "
-            "expressions both ways in the binding semantics, hence equiv = true implies equal matches; documented "
-            "rewrites are recognised; find is a filter.  The model is tied to /repo on every run by a correspondence "
-            "run on generated patterns (normal forms, equivalent_patterns, find_equivalent_patterns).",
+    "text": "Coq theorems about an executable model of stix2.equivalence.pattern (54 theorems, all closed under the global "
+            "context): the comparators are lawful total preorders, hence the reported relation is reflexive, symmetric and "
+            "transitive and find_equivalent_patterns is the filter of the pairwise test; every pass of the normaliser "
+            "(flatten, order/dedupe, absorption with its deletion loop, DNF with root-type pruning, special values, settle) "
+            "preserves the meaning of comparison expressions for EVERY interpretation of the atoms, and refines observation "
+            "expressions both ways in the binding semantics of DESIGN A.5 for EVERY observation sequence, hence "
+            "equiv = Ok true implies equal matches (equiv_sound); the IPv4 canonical text denotes the same network "
+            "(inet_aton/inet_ntoa round trip, byte-wise masking = arithmetic masking); the listed rewrites are recognised "
+            "by the responsible pass, and by the whole pipeline for one-comparison patterns.  The model is tied to /repo on "
+            "every run by a correspondence run on generated patterns (normal forms, equivalent_patterns, "
+            "find_equivalent_patterns), with the defect variant of the special-value pass selected by running witnesses.",
     "design_ref": "DESIGN.md 6/C09, Appendix A.5",
     "note": "Trusted: Coq kernel + vm_compute, the hand-written model (checked against the implementation on every run), "
-            "the restated platform functions inet_aton/inet_pton/inet_ntop/int()/str.lower() (below U+0100), the "
-            "binding semantics of Spec/PatternSemantics.v.  Termination of SettleTransformer is relative to fuel. "
-            "Soundness is for interpretations invariant under the special-value canonicalisation and typed by object type.",
+            "the restated platform functions inet_aton/inet_pton/inet_ntoa/inet_ntop/int()/str.lower() (below U+0100), the "
+            "binding semantics of Spec/PatternSemantics.v.  Partial: termination of the two settle loops is relative to "
+            "fuel (equiv_never_raises_partial); IPv6 canonicalisation is a hypothesis on the interpretation "
+            "(respects_cidr6); recognition of idempotence/absorption/distribution for arbitrary sub-expressions through "
+            "the whole pipeline is checked by the harness (oracle `recognise`), proved only pass by pass.  The pinned "
+            "special-value pass is unsound / raises on some valid patterns: *_refuted theorems, known findings.",
     "technique": "Coq proof over a hand-written executable model + correspondence run + independent pattern evaluator",
 }
 
@@ -147,7 +155,11 @@ def gen_rule_family(rng):
 
 def classify_unrecognised(name, a):
     """finding id for a listed rewrite that equivalent_patterns does not recognise at the root, or None"""
-    if name.startswith("o-absorb") and a[0] == "qual":
+    def qual_alternative(x):
+        # A itself, or one of the alternatives of A when A is an OR (they become operands of the
+        # enclosing OR after flattening), is a qualified expression
+        return x[0] == "qual" or (x[0] == "oor" and any(qual_alternative(y) for y in x[1]))
+    if name.startswith("o-absorb") and qual_alternative(a):
         return "C09-absorption-qualified-operand"
     return None
 
@@ -710,7 +722,7 @@ def check(run):
         "float literals carry <= 15 significant digits (exact rational comparison = comparison of the doubles)",
         "set literals contain primitive constants only (grammar)",
         "termination of SettleTransformer is relative to fuel (%d passes; exhaustions counted in coverage.model_fuel_exhausted)" % FUEL,
-        "soundness theorems quantify over atom interpretations that are typed by object type and invariant under the special-value canonicalisation",
+        "soundness theorems quantify over atom interpretations that are typed by object type, see a constant through its denotation (Spec/PatternSemantics.v: den_atom) and, for IPv6 only, are invariant under the address canonicalisation (respects_cidr6)",
     ]
 
 
